@@ -91,6 +91,17 @@ func families(thorough bool) []family {
 		// a name exported by a stdlib package that the session imports with use-package
 		family{name: "lang-std", cfg: gcfg{Names: []string{"join", "a"}, LangName: true, Stdlib: true, Prelude: "(use-package 'string)\n", MaxW: 4 + d, MaxItems: 2, Styles: 1, HoleMaxW: 2}},
 	)
+	// dotimes with its full control sequence (var COUNT [RESULT]): COUNT is any expression of the scope AROUND the
+	// loop (the evaluator evaluates it before the loop variable exists), RESULT any expression of the loop's own
+	// scope, the body empty or one statement; around it every binding form, a defun parameter or a global, with
+	// the loop variable drawn from the same two names -- so the count reads, assigns or calls a binding that has the
+	// loop variable's own name, the result reads the loop variable or what it shadows, loops nest in count, result
+	// and body
+	fams = append(fams,
+		family{name: "dotctl", cfg: gcfg{Names: ab, DotimesCtl: true, MaxW: 6 + d, MaxItems: 1, Styles: 1}},
+		// the same over a source name of the minifier's own x<N> scheme
+		family{name: "dotctl-gen", cfg: gcfg{Names: []string{"a", "x1"}, DotimesCtl: true, MaxW: 5 + d, MaxItems: 1, Styles: 1}, altFrom: []string{"x1"}, altTo: []string{"c"}},
+	)
 	return fams
 }
 
@@ -487,6 +498,7 @@ func featureList(c gcfg) []string {
 	}
 	add(c.Let2, "let/let* with two bindings (duplicates allowed)")
 	add(c.Dotimes, "dotimes")
+	add(c.DotimesCtl, "dotimes control sequence (var COUNT [RESULT]) with COUNT an expression of the enclosing scope and RESULT one of the loop's scope, body empty or one statement")
 	add(c.Macrolet, "macrolet")
 	add(c.FunArg, "(function n), #^ prefix lambda")
 	add(c.Data, "keyword / quoted symbol / quoted list data")
